@@ -142,8 +142,9 @@ impl Property for C07 {
     }
     fn strategy(&self, tier: Tier) -> BoxedStrategy<Case> {
         let maxd = tier.pick(3u32, 4u32);
-        (sized(3, 5), sized(2, 4))
+        (sized_wide(3, 5), sized(2, 4))
             .prop_flat_map(move |(n, p)| {
+                let maxd = if n >= 8 { 2 } else { maxd };
                 (
                     super::c02::tree_params_strategy(2, n, p, maxd).prop_flat_map(tree_spec),
                     super::c02::tree_params_strategy(2, n, p, maxd).prop_flat_map(tree_spec),
